@@ -2,7 +2,8 @@
    (any budgets, any stopping decisions, any least-squares step), the factor returned for a mode is an
    output of the operator that proximal_operator selects for that mode. *)
 From Coq Require Import List Arith Bool Lia.
-From TLV Require Import Base.PyList Base.Tensor Model.Constraints Proofs.ConstraintsProofs.
+From TLV Require Import Base.PyList Base.Tensor.
+From TLV Require Import Model.Constraints Proofs.ConstraintsProofs.
 Import ListNotations.
 
 Section Loop.
@@ -11,15 +12,15 @@ Section Loop.
   Notation spec := (@spec P).
 
   Section Fixed.
-  Variables (n : nat) (sp : list (kind * spec)).
+  Variable val : nat -> res (option (kind * P)).
 
   (* y is an output of the operator selected for mode m *)
   Definition in_range (m : nat) (y : M) : Prop :=
-    exists c v, validate truthy n sp m = Ok c /\ y = prox_of op c v.
+    exists c v, val m = Ok c /\ y = prox_of op c v.
 
-  Lemma proximal_operator_ok m x y : proximal_operator truthy op n sp m x = Ok y -> in_range m y.
+  Lemma proximal_operator_ok m x y : proximal_operator op val m x = Ok y -> in_range m y.
   Proof.
-    unfold proximal_operator. destruct (validate truthy n sp m) as [c|] eqn:E; simpl; [|discriminate].
+    unfold proximal_operator. destruct (val m) as [c|] eqn:E; simpl; [|discriminate].
     intros H. inversion H; subst. exists c, x. auto.
   Qed.
 
@@ -57,12 +58,12 @@ Section Loop.
   Variable E : env (M := M).
 
   Lemma update_mode_inv inner it fs duals mode fs' duals' :
-    update_mode truthy dM op msub madd E n sp inner it (fs, duals) mode = Ok (fs', duals') ->
+    update_mode dM op val msub madd E inner it (fs, duals) mode = Ok (fs', duals') ->
     length fs' = length fs /\ (forall m, m <> mode -> nth m fs' dM = nth m fs dM) /\
     (mode < length fs -> in_range mode (nth mode fs' dM)) /\ 0 < inner.
   Proof.
     unfold update_mode. intros H.
-    destruct (admm msub madd inner (e_split E fs mode) (e_conv E it mode) (proximal_operator truthy op n sp mode)
+    destruct (admm msub madd inner (e_split E fs mode) (e_conv E it mode) (proximal_operator op val mode)
                    (nth mode fs dM) (nth mode duals dM)) as [[[x s] d]|] eqn:A; simpl in H; [|discriminate H].
     inversion H; subst.
     apply (admm_range (in_range mode)) in A; [|intros v y; apply proximal_operator_ok].
@@ -73,7 +74,7 @@ Section Loop.
   Qed.
 
   Lemma sweep_inv inner it : forall modes st st',
-    sweep truthy dM op msub madd E n sp inner it st modes = Ok st' ->
+    sweep dM op val msub madd E inner it st modes = Ok st' ->
     length (fst st') = length (fst st) /\
     (forall m, ~ In m modes -> nth m (fst st') dM = nth m (fst st) dM) /\
     (forall m, m < length (fst st) -> In m modes \/ in_range m (nth m (fst st) dM) -> in_range m (nth m (fst st') dM)).
@@ -81,7 +82,7 @@ Section Loop.
     induction modes as [|a r IH]; intros st st' H; simpl in H.
     - inversion H; subst. split; auto. split; auto. intros m _ [[] | Hr]; exact Hr.
     - destruct st as [fs duals].
-      destruct (update_mode truthy dM op msub madd E n sp inner it (fs, duals) a) as [[fs1 du1]|] eqn:U; simpl in H; [|discriminate H].
+      destruct (update_mode dM op val msub madd E inner it (fs, duals) a) as [[fs1 du1]|] eqn:U; simpl in H; [|discriminate H].
       apply update_mode_inv in U. destruct U as (L1 & K1 & R1 & _).
       apply IH in H. simpl in H. destruct H as (L2 & K2 & R2). simpl.
       split; [congruence|]. split.
@@ -94,7 +95,7 @@ Section Loop.
   Qed.
 
   Lemma outer_loop_inv inner modes : forall fuel it st st',
-    outer_loop truthy dM op msub madd E n sp inner fuel it modes st = Ok st' ->
+    outer_loop dM op val msub madd E inner fuel it modes st = Ok st' ->
     length (fst st') = length (fst st) /\
     (forall m, ~ In m modes -> nth m (fst st') dM = nth m (fst st) dM) /\
     (forall m, m < length (fst st) -> in_range m (nth m (fst st) dM) -> in_range m (nth m (fst st') dM)) /\
@@ -102,7 +103,7 @@ Section Loop.
   Proof.
     induction fuel as [|f IH]; intros it st st' H; simpl in H.
     - inversion H; subst. repeat split; auto. intros L; inversion L.
-    - destruct (sweep truthy dM op msub madd E n sp inner it st modes) as [st1|] eqn:S; simpl in H; [|discriminate H].
+    - destruct (sweep dM op val msub madd E inner it st modes) as [st1|] eqn:S; simpl in H; [|discriminate H].
       apply sweep_inv in S. destruct S as (L1 & K1 & R1).
       destruct (e_stop E it (fst st1) (snd st1)).
       + inversion H; subst. repeat split; auto.
@@ -113,13 +114,13 @@ Section Loop.
         * intros _ m Hl Hin. apply R2; [lia|]. apply R1; auto.
   Qed.
 
-  Lemma prox_all_inv : forall raw i fs, prox_all truthy op n sp i raw = Ok fs ->
+  Lemma prox_all_inv : forall raw i fs, prox_all op val i raw = Ok fs ->
     length fs = length raw /\ forall j, j < length raw -> in_range (i + j) (nth j fs dM).
   Proof.
     induction raw as [|f r IH]; intros i fs H; simpl in H.
     - inversion H; subst. split; auto. intros j Hj; inversion Hj.
-    - destruct (proximal_operator truthy op n sp i f) as [f'|] eqn:A; simpl in H; [|discriminate H].
-      destruct (prox_all truthy op n sp (S i) r) as [r'|] eqn:B; simpl in H; [|discriminate H].
+    - destruct (proximal_operator op val i f) as [f'|] eqn:A; simpl in H; [|discriminate H].
+      destruct (prox_all op val (S i) r) as [r'|] eqn:B; simpl in H; [|discriminate H].
       inversion H; subst. apply IH in B. destruct B as (L & R). apply proximal_operator_ok in A.
       split; [simpl; congruence|]. intros [|j] Hj; simpl.
       + rewrite Nat.add_0_r. exact A.
@@ -130,8 +131,8 @@ Section Loop.
   Definition init_computed (i0 : init (M := M)) : bool := match i0 with IComputed _ => true | IUser _ => false end.
 
   (* THE SKELETON: any budgets, any environment (least-squares steps, stopping decisions) *)
-  Theorem cp_skeleton i0 fixed n_outer n_inner zero fs :
-    constrained_cp truthy dM op msub madd E n sp i0 fixed n_outer n_inner zero = Ok fs ->
+  Theorem cp_skeleton n i0 fixed n_outer n_inner zero fs :
+    constrained_cp dM op val msub madd E n i0 fixed n_outer n_inner zero = Ok fs ->
     length fs = length (init_factors i0) /\
     (forall m, m < length fs ->
        init_computed i0 = true \/ (In m (modes_list n fixed) /\ 0 < n_outer) -> in_range m (nth m fs dM)) /\
@@ -139,9 +140,9 @@ Section Loop.
        nth m fs dM = nth m (init_factors i0) dM).
   Proof.
     unfold constrained_cp. intros H.
-    destruct (validate truthy n sp 0) as [c0|]; simpl in H; [|discriminate H].
-    destruct (initialize truthy op n sp i0) as [fs0|] eqn:I; simpl in H; [|discriminate H].
-    destruct (outer_loop truthy dM op msub madd E n sp n_inner n_outer 0 (modes_list n fixed)
+    destruct (val 0) as [c0|]; simpl in H; [|discriminate H].
+    destruct (initialize op val i0) as [fs0|] eqn:I; simpl in H; [|discriminate H].
+    destruct (outer_loop dM op val msub madd E n_inner n_outer 0 (modes_list n fixed)
                          (fs0, map (fun _ => zero) fs0)) as [st|] eqn:O; simpl in H; [|discriminate H].
     inversion H; subst. pose proof O as O'. apply outer_loop_inv in O. simpl in O. destruct O as (L & K & R & U).
     assert (I0 : length fs0 = length (init_factors i0) /\
@@ -162,15 +163,16 @@ Section Loop.
   Qed.
 
   (* a successful run with a positive outer budget implies a positive inner budget whenever some mode is updated *)
-  Lemma cp_err_on_double i0 fixed n_outer n_inner zero :
-    validate truthy n sp 0 = Err -> constrained_cp truthy dM op msub madd E n sp i0 fixed n_outer n_inner zero = Err.
+  Lemma cp_err_on_double n i0 fixed n_outer n_inner zero :
+    val 0 = Err -> constrained_cp dM op val msub madd E n i0 fixed n_outer n_inner zero = Err.
   Proof. unfold constrained_cp. intros ->. reflexivity. Qed.
   End Fixed.
 
+  (* ---- instance: natural-number keys (val = validate truthy n sp) *)
   (* the returned factor of a mode on which the user requested constraint k with parameter p is an output of op k p *)
   Theorem cp_requested_in_range n sp (E : env (M := M)) i0 fixed n_outer n_inner zero fs m k s p :
     wf_specs sp ->
-    constrained_cp truthy dM op msub madd E n sp i0 fixed n_outer n_inner zero = Ok fs ->
+    constrained_cp dM op (validate truthy n sp) msub madd E n i0 fixed n_outer n_inner zero = Ok fs ->
     m < length fs -> init_computed i0 = true \/ (In m (modes_list n fixed) /\ 0 < n_outer) ->
     In (k, s) sp -> requested truthy n s m p ->
     exists v, nth m fs dM = op k p v.
@@ -193,13 +195,13 @@ Section Loop.
   (* double constraints (or constraints on non-existing modes) are rejected by the decomposition itself *)
   Theorem cp_rejects n sp (E : env (M := M)) i0 fixed n_outer n_inner zero : wf_specs sp ->
     double truthy n sp \/ out_of_range truthy n sp ->
-    constrained_cp truthy dM op msub madd E n sp i0 fixed n_outer n_inner zero = Err.
+    constrained_cp dM op (validate truthy n sp) msub madd E n i0 fixed n_outer n_inner zero = Err.
   Proof.
     intros Wf H. apply cp_err_on_double. apply validate_err_iff; auto. tauto.
   Qed.
 
   Theorem cp_ok_no_double n sp (E : env (M := M)) i0 fixed n_outer n_inner zero fs : wf_specs sp ->
-    constrained_cp truthy dM op msub madd E n sp i0 fixed n_outer n_inner zero = Ok fs ->
+    constrained_cp dM op (validate truthy n sp) msub madd E n i0 fixed n_outer n_inner zero = Ok fs ->
     ~ double truthy n sp /\ ~ out_of_range truthy n sp.
   Proof.
     intros Wf H. split; intro X.
